@@ -50,7 +50,7 @@ PROFILES = {
         "ext": "html", "render": lambda doc, **kw: simple.render_html(doc, **kw),
         "features": FLOW_INLINE | {"run.ins", "run.comment-ref", "container.sdt.inline", "para.heading", "list.flat", "list.nested", "table.simple", "table.multi-para-cell",
                                    "table.nested", "table.empty-cell", "table.header-rows", "table.ragged", "container.section", "container.group", "excluded.header-footer", "excluded.comment"},
-        "table_text_in_full_text": True, "unit_kind": "single", "max_units": 1, "opts": {"inline_removed": [False, False, "script", "style", "noscript"]},
+        "table_text_in_full_text": True, "unit_kind": "single", "max_units": 1, "opts": {"inline_removed": [False, False, "script", "style", "noscript"], "charset": [None, None, "windows-1252", "iso-8859-2", "iso-8859-15"], "late_meta": [False, True]},
     },
     "mhtml": {
         "ext": "mhtml", "render": lambda doc, **kw: simple.render_mhtml(doc, **kw),
@@ -80,7 +80,7 @@ PROFILES = {
     "eml": {"ext": "eml", "render": lambda doc, **kw: simple.render_eml(doc, **kw), "features": {"run.multi", "run.break", "list.flat", "table.simple"},
             "table_text_in_full_text": True, "unit_kind": "message", "max_units": 1},
     "mbox": {"ext": "mbox", "render": lambda doc, **kw: simple.render_mbox(doc, **kw), "features": {"run.multi", "run.break", "list.flat", "table.simple", "unit.multi"},
-             "table_text_in_full_text": True, "unit_kind": "message", "max_units": 3, "opts": {"crlf": [False, True]}},
+             "table_text_in_full_text": True, "unit_kind": "message", "max_units": 3, "opts": {"crlf": [False, True], "message_ids": [None, None, "none", "same"]}},
     "ppt": {"ext": "ppt", "render": lambda doc, **kw: legacy.render_ppt(doc, **kw),
             "features": {"run.multi", "run.break", "para.heading", "list.flat", "unit.multi", "unit.empty", "excluded.speaker-notes"},
             "table_text_in_full_text": True, "unit_kind": "slide", "max_units": 4, "opts": {"codepage": [65001, 65001, 1252, 1200], "text_placement": ["both", "both", "outline"], "two_titles": [False, False, True]}},
